@@ -667,6 +667,24 @@ pub fn run_c16(ctx: &Ctx) -> Outcome {
             (MutK::Stringlen, false, Val::Bytes(vec![1, 2, 3])),
             (MutK::Character, false, Val::Str("h\u{e9}llo".into())),
             (MutK::Character, false, Val::Bytes(vec![9, 8, 7])),
+            // inputs made of the extreme values of the documented output range: a replacement that
+            // collides with (or is derived from) what is already there must still be in range
+            (MutK::Character, false, Val::Str("~~~~".into())),
+            (MutK::Character, false, Val::Str("!!!!".into())),
+            (MutK::Character, false, Val::Str("~".into())),
+            (MutK::Character, false, Val::Bytes(vec![0xff; 4])),
+            (MutK::Character, false, Val::Bytes(vec![0x00; 4])),
+            (MutK::Stringlen, false, Val::Str(String::new())),
+            (MutK::Stringlen, false, Val::Bytes(Vec::new())),
+            (MutK::Stringlen, false, Val::Str("\u{10348}\u{e9}z".into())),
+            (MutK::Offbyone, false, Val::Memo(usize::MAX)),
+            (MutK::Offbyone, false, Val::Memo(i64::MAX as usize)),
+            (MutK::Offbyone, false, Val::Int(i32::MIN)),
+            (MutK::Offbyone, false, Val::Long(i64::MIN)),
+            (MutK::Offbyone, false, Val::Long(i64::MAX)),
+            (MutK::Bitflip, false, Val::Int(-1)),
+            (MutK::Bitflip, false, Val::Long(i64::MIN)),
+            (MutK::Memoindex, false, Val::Memo(usize::MAX)),
         ];
         for x in 0..65536u32 {
             let mut b = gate.to_vec();
